@@ -47,6 +47,18 @@ CHECKS = {
         ref="DESIGN.md 6/C13",
         note=NOTE + "vertex_areas, vertex_normals, avg_edge_length, centroid, normalize_, normal_offset_ are tied by the differential check only.",
         technique="Lean 4 proof (real-algebra identities/inequalities) tied by tracing of the NumPy kernels on a symbolic closed mesh and differential driver"),
+    "C09": dict(
+        text="Theorems for every triangle index list with distinct vertices per triangle (no size bound): the stored adjacency entries are "
+             "the edge / half-edge counts; is_closed, is_manifold, is_oriented are equivalent to their counting definitions; nnz = 2 x "
+             "#edges with symmetric diagonal-free keys, hence euler = #used vertices - #edges + #triangles; has_free_vertices and "
+             "vertex_degrees (edges per vertex) specifications; error branches of boundary_loops and edges; edges() lists every interior "
+             "edge exactly once (i<j, sorted) with two distinct triangles, the first containing the half-edge i->j; boundary_loops on a "
+             "permutation-like boundary terminates with duplicate-free cycles, consecutive entries boundary half-edges in a common "
+             "direction, every boundary half-edge used exactly once. The model mirrors the CSC mechanism and is compared exactly with the "
+             "implementation on generated and exhaustively enumerated small complexes (calls run in killable workers).",
+        ref="DESIGN.md 6/C09",
+        note=NOTE + "the model of tria_mesh.py's connectivity code is hand-written and tied by exact differential comparison only.",
+        technique="Lean 4 proof (counting lemmas, induction over the triangle list, cycle argument for the loop walk) tied by exact differential driver"),
 }
 
 NOT_YET = {}
